@@ -4,15 +4,16 @@ set -u
 export GOFLAGS=-mod=mod GOPROXY=off GOSUMDB=off GOTOOLCHAIN=local
 VERIF=$(cd "$(dirname "$0")" && pwd)
 cd "$VERIF/mc" || exit 1
-cp /repo/go.sum go.sum 2>/dev/null
 SCRATCH=$(mktemp -d /var/tmp/verif-setup-XXXXXX)
 trap 'rm -rf "$SCRATCH"' EXIT
+cp go.mod "$SCRATCH/go.mod"; cp /repo/go.sum "$SCRATCH/go.sum" 2>/dev/null
+export VERIF_MODFILE="$SCRATCH/go.mod"
 rc=0
 for d in cmd/c[0-9][0-9]; do
   id=$(basename "$d" | tr 'a-z' 'A-Z')
   mkdir -p "$SCRATCH/$id"
   if python3 mkoverlay.py "$id" /repo "$SCRATCH/$id" > "$SCRATCH/$id/overlay.json" && \
-     go build -tags verif -overlay "$SCRATCH/$id/overlay.json" -o "$SCRATCH/$id/bin" ./$d; then
+     go build -modfile="$SCRATCH/go.mod" -tags verif -overlay "$SCRATCH/$id/overlay.json" -o "$SCRATCH/$id/bin" ./$d; then
     echo "setup: built $id"
   else
     echo "setup: FAILED to build $id" >&2; rc=1
